@@ -71,12 +71,24 @@ fn target_bytes() -> impl Strategy<Value = Hex> {
         2 => vec(any::<u8>().prop_map(|b| if b == b' ' || b == b'\r' || b == b'\n' { b'x' } else { b }), 0..60).prop_map(Hex),
         1 => vec(prop::sample::select(vec![0x80u8, 0xff, 0xc3, 0x28, 0xfe, 0x00, b'a', b'/']), 1..24).prop_map(Hex),
         1 => Just(Hex(vec![])),
+        // long targets (log-line truncation, buffer limits), ASCII with multi-byte / invalid UTF-8 sprinkled in
+        1 => (100usize..400, vec((any::<u16>(), prop::sample::select(vec![0xc3u8, 0xa9, 0xff, 0xe2, 0x82, 0xac, 0xf0, 0x80])), 0..12), any::<u8>()).prop_map(|(n, hi, c)| {
+            let mut v = vec![b'a' + c % 26; n];
+            for (p, b) in hi {
+                let k = pick(p, n);
+                v[k] = b;
+            }
+            Hex(v)
+        }),
     ]
 }
 
 fn header_value() -> impl Strategy<Value = Hex> {
     prop_oneof![
         3 => " [ -~]{0,40}".prop_map(|s| Hex(s.into_bytes())),
+        // a value that itself looks like the start of a request line / contains a colon
+        1 => (0usize..9, "[ ]?", "[a-z/:]{0,10}").prop_map(|(v, sp, t)| Hex(format!("{}{} /{}", sp, HTTP_VERBS[v], t).into_bytes())),
+        1 => Just(Hex(vec![])),
         1 => vec(any::<u8>().prop_map(|b| if b == b'\r' || b == b'\n' { b':' } else { b }), 0..40).prop_map(Hex),
     ]
 }
@@ -156,11 +168,22 @@ pub fn ssh_banner() -> impl Strategy<Value = SshBanner> {
 // Gh0st
 
 pub fn ghost_req() -> impl Strategy<Value = Hex> {
-    vec(any::<u8>(), 0..300).prop_map(|t| {
+    let random_tail = vec(any::<u8>(), 0..300).prop_map(|t| {
         let mut v = b"Gh0st".to_vec();
         v.extend_from_slice(&t);
         Hex(v)
-    })
+    });
+    // a plausible Gh0st packet: magic, LE32 total length (exact / larger: truncated packet /
+    // smaller / zero), LE32 uncompressed length, body
+    let structured = (vec(any::<u8>(), 0..120), prop_oneof![2 => Just(0i32), 2 => 1i32..400, 1 => -13i32..0, 1 => Just(-100000i32)], any::<u16>()).prop_map(|(body, delta, ulen)| {
+        let total = (13 + body.len() as i32 + delta).max(0) as u32;
+        let mut v = b"Gh0st".to_vec();
+        v.extend_from_slice(&total.to_le_bytes());
+        v.extend_from_slice(&(ulen as u32).to_le_bytes());
+        v.extend_from_slice(&body);
+        Hex(v)
+    });
+    prop_oneof![3 => random_tail, 2 => structured]
 }
 
 // ---------------------------------------------------------------------------------------
@@ -215,12 +238,23 @@ impl StunReq {
     }
 }
 
+/// transaction ids: random, all-zero, or starting with eight zero bytes (bytes 4..12 of the
+/// message then read as four zero DNS section counts) / a DNS-parseable layout
+pub fn stun_id() -> impl Strategy<Value = [u8; 16]> {
+    prop_oneof![
+        8 => any::<[u8; 16]>(),
+        1 => Just([0u8; 16]),
+        1 => any::<[u8; 8]>().prop_map(|t| { let mut id = [0u8; 16]; id[8..].copy_from_slice(&t); id }),
+        1 => Just([0, 1, 0, 0, 0, 0, 0, 0, 2, b'a', b'b', 0, 0, 1, 0, 1]),
+    ]
+}
+
 pub fn stun_change_request() -> impl Strategy<Value = StunAttr> {
     (0u8..8).prop_map(|bits| StunAttr { typ: 3, value: Hex(vec![0, 0, 0, bits & 0x06]) })
 }
 
 fn stun_other_attr() -> impl Strategy<Value = StunAttr> {
-    (prop::sample::select(vec![0x0006u16, 0x8022, 0x0024, 0x8029, 0x0008, 0x0014, 0x0015, 0x7777, 0xc001]), 0usize..=16, any::<[u8; 32]>(), any::<[u8; 32]>())
+    (prop::sample::select(vec![0x0006u16, 0x8022, 0x0024, 0x8029, 0x0008, 0x0014, 0x0015, 0x7777, 0xc001, 0x0000, 0x0000, 0x8028, 0x0020]), 0usize..=16, any::<[u8; 32]>(), any::<[u8; 32]>())
         .prop_map(|(typ, words, a, b)| {
             let mut val = a.to_vec();
             val.extend_from_slice(&b);
@@ -231,7 +265,7 @@ fn stun_other_attr() -> impl Strategy<Value = StunAttr> {
 
 /// Well-formed binding request *with* magic cookie: 0..6 TLVs, CHANGE-REQUEST at most once.
 pub fn stun_req_magic() -> impl Strategy<Value = StunReq> {
-    (any::<[u8; 16]>(), vec(stun_other_attr(), 0..=5), prop::option::of((stun_change_request(), any::<u16>()))).prop_map(|(id, mut attrs, cr)| {
+    (stun_id(), vec(stun_other_attr(), 0..=5), prop::option::of((stun_change_request(), any::<u16>()))).prop_map(|(id, mut attrs, cr)| {
         if let Some((c, pos)) = cr {
             let p = pick(pos, attrs.len() + 1);
             attrs.insert(p, c);
@@ -242,7 +276,7 @@ pub fn stun_req_magic() -> impl Strategy<Value = StunReq> {
 
 /// The two published RFC 3489 forms (no cookie): no attributes, or a single CHANGE-REQUEST.
 pub fn stun_req_classic() -> impl Strategy<Value = StunReq> {
-    (any::<[u8; 16]>(), prop::option::of(stun_change_request())).prop_map(|(id, cr)| StunReq { mtype: 1, magic: false, id, attrs: cr.into_iter().collect() })
+    (stun_id(), prop::option::of(stun_change_request())).prop_map(|(id, cr)| StunReq { mtype: 1, magic: false, id, attrs: cr.into_iter().collect() })
 }
 
 /// magic-cookie request whose attribute bytes exceed 255 (so that the message length's high
@@ -398,7 +432,10 @@ fn dns_question_mixed() -> impl Strategy<Value = DnsQuestion> {
 
 /// QR=0, every other header bit arbitrary, k IN/A questions, no other sections.
 pub fn dns_query(maxq: usize) -> impl Strategy<Value = DnsQuery> {
-    (any::<u16>(), any::<u16>(), vec(dns_question_a(), 0..=maxq)).prop_map(|(id, flags, questions)| DnsQuery { id, flags: flags & 0x7fff, questions })
+    let mixed = (any::<u16>(), any::<u16>(), vec(dns_question_a(), 0..=maxq)).prop_map(|(id, flags, questions)| DnsQuery { id, flags: flags & 0x7fff, questions });
+    // large messages: the maximum number of questions, each with a name at the length limit
+    let big = (any::<u16>(), any::<u16>(), vec(dns_long_name(), maxq.max(1)..=maxq.max(1))).prop_map(|(id, flags, questions)| DnsQuery { id, flags: flags & 0x7fff, questions });
+    prop_oneof![30 => mixed, 1 => big]
 }
 
 // ---------------------------------------------------------------------------------------
@@ -472,13 +509,17 @@ pub fn rpc_call() -> impl Strategy<Value = RpcCall> {
         prop_oneof![4 => Just(100000u32), 2 => 99840u32..=100095, 1 => Just(100003u32), 1 => Just(100005u32)],
         prop_oneof![3 => 2u32..=4, 2 => 0u32..=6, 1 => any::<u32>(), 1 => Just(104316u32)],
         prop_oneof![3 => 0u32..=5, 2 => 0u32..=255],
-        (prop_oneof![3 => Just(0u32), 1 => Just(1u32), 1 => any::<u32>()], prop_oneof![4 => (0usize..=16).prop_map(|w| w * 4), 1 => 0usize..=64], any::<[u8; 32]>(), any::<[u8; 32]>()),
+        (prop_oneof![3 => Just(0u32), 1 => Just(1u32), 1 => any::<u32>()], prop_oneof![8 => (0usize..=16).prop_map(|w| w * 4), 2 => 0usize..=64, 1 => (64usize..=80).prop_map(|w| w * 4), 1 => 255usize..=300], any::<[u8; 32]>(), any::<[u8; 32]>()),
         (prop_oneof![4 => Just(0u32), 1 => any::<u32>()], prop_oneof![6 => Just(0usize), 1 => (1usize..=8).prop_map(|w| w * 4), 1 => 1usize..=32], any::<[u8; 32]>()),
         prop_oneof![2 => Just(Hex(vec![])), 1 => vec(any::<u8>(), 0..40).prop_map(Hex), 1 => any::<[u8; 16]>().prop_map(|a| Hex(a.to_vec()))],
     )
         .prop_map(|((xid, rpcvers_low), program, version, procedure, (cred_flavor, cl, ca, cb), (verf_flavor, vl, va), args)| {
             let mut cred = ca.to_vec();
             cred.extend_from_slice(&cb);
+            while cred.len() < cl {
+                let k = cred.len();
+                cred.push(cb[k % 32] ^ (k as u8));
+            }
             cred.truncate(cl);
             let mut verf = va.to_vec();
             verf.truncate(vl);
